@@ -20,7 +20,20 @@
                   not surface although the generator planted it on an evaluated row;
            4 = the fault-free query is outside the model (and the property part holds). *)
 From GenqlV Require Import Base.Prelude Base.Value Model.Ast Model.Eval Model.Exec Model.Join
-                           Model.Faults Run.EngineRun.
+                           Model.Faults.
+
+(* multiset equality of row lists (join results come out of Go map iteration) *)
+Fixpoint remove_one (x : value) (l : list value) : option (list value) :=
+  match l with
+  | [] => None
+  | y :: r => if veqb x y then Some r
+              else match remove_one x r with Some r' => Some (y :: r') | None => None end
+  end.
+Fixpoint perm_eqb (a b : list value) : bool :=
+  match a with
+  | [] => match b with [] => true | _ => false end
+  | x :: r => match remove_one x b with Some b' => perm_eqb r b' | None => false end
+  end.
 
 Definition input := (bool * value * stmt * list trigger * option bool * bool)%type.
 Definition run_obs := (res (list value) * bool)%type.
